@@ -450,12 +450,16 @@ CATALOGUE['C14'] = [
             result = render_blocks(self.section, md, encoding=self.encoding)
         # Then handle finally block
         finally:
-            result = result + render_blocks(self.finallyBlock, md,
-                                            encoding=self.encoding)
+            result = join_unicode(
+                [result, render_blocks(self.finallyBlock, md,
+                                       encoding=self.encoding)],
+                encoding=self.encoding)
         return result""",
       """        result = render_blocks(self.section, md, encoding=self.encoding)
-        result = result + render_blocks(self.finallyBlock, md,
-                                        encoding=self.encoding)
+        result = join_unicode(
+            [result, render_blocks(self.finallyBlock, md,
+                                   encoding=self.encoding)],
+            encoding=self.encoding)
         return result""", 'C14.R3-R5'),
     V('handler body guarded by except', 'DT_Try.py',
       """                return render_blocks(handler, md, encoding=self.encoding)
